@@ -434,6 +434,23 @@ func (S *Specs) parseLines(lines []rawLine, ctx *PkgCtx, pkgShort string, extern
 				fail(l, "duplicate contract for %s", key)
 			}
 			S.Contracts[key] = cur
+		case "verify":
+			// verify func <full key>: a contract on a dependency's function that is VERIFIED from its source
+			// in the module cache (not assumed)
+			key := strings.TrimSpace(strings.TrimPrefix(rest, "func"))
+			m := reExternHdr.FindStringSubmatch(key)
+			cur = &Contract{Ctx: ctx, Where: l.where}
+			if m != nil {
+				cur.Key = strings.TrimSpace(m[1])
+				cur.ParamNames = splitNames(m[2])
+				cur.ResultNames = splitNames(m[3])
+			} else {
+				cur.Key = key
+			}
+			if S.Contracts[cur.Key] != nil {
+				fail(l, "duplicate contract for %s", cur.Key)
+			}
+			S.Contracts[cur.Key] = cur
 		case "extern":
 			rest = strings.TrimSpace(strings.TrimPrefix(strings.TrimPrefix(rest, "func"), "method"))
 			m := reExternHdr.FindStringSubmatch(rest)
@@ -765,7 +782,7 @@ func resolveTypeExpr(ctx *PkgCtx, e ast.Expr) (types.Type, error) {
 	return nil, fmt.Errorf("unsupported type expression %T", e)
 }
 
-var directiveWords = map[string]bool{"import": true, "package": true, "func": true, "extern": true, "props": true, "trusted": true,
+var directiveWords = map[string]bool{"import": true, "package": true, "func": true, "extern": true, "verify": true, "props": true, "trusted": true,
 	"pure": true, "ghost": true, "opaque": true, "nooverflow": true, "interference": true, "requires": true, "ensures": true, "ensures-local": true, "ensures-ghost": true, "modifies": true,
 	"loop": true, "callback": true, "at": true, "lemma": true, "global": true}
 
